@@ -62,7 +62,7 @@ def run(args, env):
     for sid in ids:
         d = os.path.join(sdir, sid)
         meta = json.load(open(os.path.join(d, "meta.json")))
-        props = [meta["property"]] + [p for p in args.also.split(",") if p]
+        props = [meta["property"]] + list(meta.get("also_check", [])) + [p for p in args.also.split(",") if p and p not in meta.get("also_check", [])]
         patch = os.path.join(d, "patch.diff")
         chk = sh("git", "-C", REPO, "apply", "--check", patch)
         if chk.returncode != 0:
